@@ -17,6 +17,7 @@
 
 // Ourselves:
 #include <bxdecay0/divdif.h>
+#include <bxdecay0/verif_hooks.h>
 
 // Standard library:
 #include <cmath>
@@ -105,6 +106,7 @@ namespace bxdecay0 {
     //        (INSERT POINT.)
   tag_10:
     IP++;
+    BXDECAY0_VERIF_NOTE("index", 1, ISUB, N);
     T[IP - 1] = A_[ISUB - 1];
     D[IP - 1] = F_[ISUB - 1];
   tag_11:
